@@ -189,6 +189,13 @@ func TestC06_OutOfRange(t *testing.T) {
 			c06.one(t, c06Case{V6: false, B: p})
 		}
 	}
+	for _, inner := range deepInners() {
+		for d := 1; d <= 100; d += 3 {
+			if b := deepRelay(d, inner, d%2 == 1); len(b) <= 4096 {
+				c06.one(t, c06Case{V6: true, B: b})
+			}
+		}
+	}
 	c06.rec.Class("out-of-range enumeration")
 }
 
